@@ -114,13 +114,22 @@ class ScriptedRNG:
         self.seq = list(seq)
         self.used = 0
 
-    def random(self, *a, **k):
+    def random(self, size=None, *a, **k):
         if a or k:
-            raise AssertionError('scripted rng: only scalar random() '
-                                 'expected')
-        v = self.seq[self.used]
-        self.used += 1
-        return v
+            raise AssertionError('scripted rng: random() with unexpected '
+                                 f'arguments {a} {k}')
+        if size is None:
+            v = self.seq[self.used]
+            self.used += 1
+            return v
+        # a vectorised draw takes the next variates in order
+        m = int(np.prod(size))
+        if self.used + m > len(self.seq):
+            raise AssertionError(f'scripted rng: {self.used + m} variates '
+                                 f'asked for, {len(self.seq)} scripted')
+        v = np.array(self.seq[self.used:self.used + m], dtype=float)
+        self.used += m
+        return v.reshape(size)
 
     def __getattr__(self, name):
         raise AssertionError(f'scripted rng: unexpected use of rng.{name}')
